@@ -617,3 +617,6 @@ Definition apply_lsop (ls : logstore) (o : lsop) : logstore :=
   end.
 
 Definition empty_logstore : logstore := mkLS None None None [] [].
+
+(* ocaml/common/util.ml needs the extracted type of Z *)
+Definition z_of_n (x : N) : Z := Z.of_N x.
